@@ -413,6 +413,135 @@ def check_static_structs(prop, tier, seed):
     return rep
 
 
+def ident_shaders(rng):
+    """identifier universe: non-ASCII, Rust keywords naga accepts, names of fixed generated items"""
+    out = []
+    names = ["box", "dyn", "in", "gen", "try", "OverrideConstants", "VertexEntry", "FragmentEntry", "SOURCE", "String", "Option", "Vec", "compute", "bind_groups",
+             "caf\u00e9", "\u03b1\u03b2", "\u6570\u636e", "_x", "r#type", "Self_", "crate_", "wgpu", "std", "bytemuck", "device", "pass", "entry", "module", "bindings", "value", "entries", "self_"]
+    for n in names:
+        if not P_ident(n):
+            continue
+        # as struct name, member name, global name, const name
+        S = {"structs": [{"name": n if n[0].isupper() or not n.isascii() else "Data", "members": [{"name": n if not n[0].isupper() else "field", "ty": F.VEC4}]}],
+             "globals": [], "consts": [{"name": n if n.isupper() else "K_" + n, "expr": "1.0"}] if n.isascii() else [], "overrides": [], "functions": [], "entries": []}
+        sn = S["structs"][0]["name"]
+        S["globals"].append({"name": ("g_" + n) if n[0].isupper() else n, "space": "uniform", "group": "0", "binding": "0", "ty": {"k": "struct", "name": sn}})
+        S["entries"].append(F.frag_entry(body=[{"k": "access", "g": S["globals"][0]["name"], "how": "load"}]))
+        out.append((n, S))
+    return out
+
+
+def P_ident(n):
+    import re
+    return re.match(r"^[^\W\d]\w*$", n, re.UNICODE) is not None
+
+
+def check_C01(tier, seed):
+    rep = Report("C01", tier, seed)
+    rng = random.Random(seed)
+    quick = tier == "quick"
+    r = structs_mc(rep, quick, early=EARLY, check_work=False)
+    cases = []
+    ov = F.all_opts(mvs=("rust", "glam"))
+    # role-rich shaders under the derive matrix (encase is only combined with representations encase implements)
+    for i in range(24 if quick else 400):
+        S, has_rt = F.role_shader(rng, big_arrays=(i % 4 == 0), entry_names=(i % 3 == 0))
+        if rng.random() < 0.4:
+            S["overrides"] = [{"name": "scale", "ty": "f32", "default": "1.0"}, {"name": "count", "ty": "u32", "id": 3}, {"name": "on", "ty": "bool"}][:rng.randint(1, 3)]
+        if rng.random() < 0.4:
+            S["consts"] = F.const_table(rng)[:rng.randint(3, 30)]
+        vecs = [o for o in ov if not (has_rt and (not o["enc"] or o["bmh"]))]
+        for j, o in enumerate(rng.sample(vecs, min(len(vecs), 12 if quick else 32))):
+            o = dict(o)
+            o["rustfmt"] = (j % 6 == 5)
+            o["validate"] = ("none", "all")[j % 2]
+            cases.append({"id": "mat-%04d-%02d" % (i, j), "family": "compile-matrix", "S": S, "opts": o})
+        # nalgebra: against the stub (no encase)
+        cases.append({"id": "mat-%04d-na" % i, "family": "compile-nalgebra", "S": S, "opts": F.opts(mv="nalgebra", bmv=True, bmh=not has_rt, serde=True, enc=has_rt)}) if not has_rt else None
+    sub = r.cases[::(40 if quick else 4)]
+    for i, e in enumerate(sub):
+        cases.append({"id": "role-%05d" % i, "family": "compile-roles", "S": e["S"], "opts": dict(ov[(i * 7) % len(ov)], enc=True)})
+    for i, (n, S) in enumerate(ident_shaders(rng)):
+        cases.append({"id": "ident-%03d" % i, "family": "compile-ident", "S": S, "opts": F.opts(bmv=True, enc=True, mv="glam", rustfmt=(i % 2 == 1))})
+    re_ = run_mc("MC_Entries.tla", "MC_Entries.cfg", workers=4)
+    rep.add_mc("MC_Entries", re_, "entry shapes exported")
+    for i, e in enumerate(re_.cases[::(3 if quick else 1)]):
+        S = dict(e["S"])
+        if i % 2:
+            S["overrides"] = [{"name": "ov", "ty": "f32", "default": "2.0"}]
+        cases.append({"id": "ent-%04d" % i, "family": "compile-entries", "S": S, "opts": F.opts(bmv=True, mv="glam")})
+    for i, S in enumerate(F.override_shaders(rng, 30 if quick else 300)):
+        cases.append({"id": "ovr-%04d" % i, "family": "compile-overrides", "S": S, "opts": F.opts()})
+    # member types outside bytemuck's / encase's vocabulary: f64 under encase, bool in private/workgroup structs
+    rl = run_mc("MC_Layout.tla", "MC_Layout.cfg", workers=8, consts={"Mode": '"triples"'}, tag="layoutC01")
+    for i, e in enumerate(rl.cases[::(12 if quick else 2)]):
+        cases.append({"id": "lay-%04d" % i, "family": "compile-layout-encase", "S": e["S"], "opts": F.opts(enc=True, mv=("glam", "rust")[i % 2], serde=(i % 3 == 0))})
+    for i, sp in enumerate(["private", "workgroup"]):
+        for j, o in enumerate([F.opts(), F.opts(bmh=True), F.opts(enc=True, mv="glam"), F.opts(serde=True, bmv=True)]):
+            S = {"structs": [{"name": "Flags", "members": [{"name": "on", "ty": {"k": "scalar", "s": "bool"}}, {"name": "v", "ty": {"k": "vec", "n": 2, "s": "bool"} if j % 2 else F.VEC4}]}],
+                 "globals": [{"name": "flags", "space": sp, "ty": {"k": "struct", "name": "Flags"}}], "consts": [], "overrides": [], "functions": [],
+                 "entries": [{"name": "cs_main", "stage": "compute", "params": [], "body": [{"k": "access", "g": "flags", "how": "load"}], "wg": ["1"]}]}
+            cases.append({"id": "bool-%d-%d" % (i, j), "family": "compile-bool", "S": S, "opts": o})
+    cases = [c for c in cases if c]
+    compiled_and_judge(rep, "C01", cases, "real", "real", set(), keep=["mods"])
+    rep.assumptions.append("MatrixVectorTypes::Nalgebra is compiled against a layout- and trait-faithful stub (nalgebra is not in the offline cache) and is never combined with encase")
+    return finish(rep)
+
+
+def check_C05(tier, seed):
+    import compiled
+    quick = tier == "quick"
+    # (1) the numbers carried by the assertions, on the whole table (static projection, all representations)
+    rep = check_static_structs("C05", tier, seed)
+    rng = random.Random(seed + 1)
+    # (2) soundness: the module with assertions is compiled (accept / reject per struct), its twin without any
+    #     derive is compiled and its real Rust layout measured; accepted => twin layout = WGSL layout
+    exported = []
+    for mode in ("pairs", "triples", "arrays"):
+        r = run_mc("MC_Layout.tla", "MC_Layout.cfg", workers=8, consts={"Mode": '"%s"' % mode, "Export": "TRUE"}, tag="layoutS_" + mode)
+        exported += r.cases
+    rng.shuffle(exported)
+    exported = exported[:(70 if quick else 2169)]
+    cases = []
+    for i, e in enumerate(exported):
+        for mv in ("rust", "glam", "nalgebra"):
+            cases.append({"id": "snd-%05d-%s-twin" % (i, mv), "family": "layout-twin", "S": e["S"], "opts": F.opts(mv=mv)})
+            cases.append({"id": "snd-%05d-%s" % (i, mv), "family": "layout-soundness", "S": e["S"], "opts": F.opts(mv=mv, bmh=True, bmv=(i % 2 == 0))})
+    for i in range(40 if quick else 800):
+        S, has_rt = F.role_shader(rng, big_arrays=False)
+        if has_rt:
+            continue
+        mv = ("rust", "glam", "nalgebra")[i % 3]
+        cases.append({"id": "sndr-%05d-twin" % i, "family": "layout-twin", "S": S, "opts": F.opts(mv=mv)})
+        cases.append({"id": "sndr-%05d" % i, "family": "layout-soundness-roles", "S": S, "opts": F.opts(mv=mv, bmh=True, bmv=(i % 2 == 0))})
+    by_id = {c["id"]: c for c in cases}
+    trace = compiled.run_compiled(cases, "C05_sound", "shim", {"layout"}, keep=["structs"], batch_size=240)
+    evs = [json.loads(l) for l in open(trace)]
+    obs = {e["id"]: e for e in evs if e["ev"] == "obs"}
+    n_twin = 0
+    for cid, o in obs.items():
+        if cid.endswith("-twin"):
+            continue
+        t = obs.get(cid + "-twin")
+        if t is not None and t.get("compile", {}).get("outcome") == "ok":
+            o["twin"] = [e for e in t.get("rt", []) if e.get("ev") == "rt.layout"]
+            n_twin += 1
+    tp = trace + ".twin"
+    with open(tp, "w") as f:
+        for e in evs:
+            if not str(e.get("id", "")).endswith("-twin"):
+                f.write(json.dumps(e) + "\n")
+    tr = validate_trace(tp, "C05S", chunk_lines=3000)
+    rep.evaluations += len(cases)
+    for c in cases:
+        rep.distinct.add(src_key(c))
+    handle_verdicts(rep, tr, by_id, "soundness")
+    acc = sum(1 for cid, o in obs.items() if not cid.endswith("-twin") and o.get("compile", {}).get("outcome") == "ok")
+    rejd = sum(1 for cid, o in obs.items() if not cid.endswith("-twin") and o.get("compile", {}).get("outcome") == "reject")
+    rep.notes.append("soundness: %d modules with assertions compiled (%d accepted by rustc, %d rejected), %d twins measured" % (acc + rejd, acc, rejd, n_twin))
+    return finish(rep)
+
+
 def check_C06(tier, seed):
     return finish(check_static_structs("C06", tier, seed))
 
@@ -567,4 +696,4 @@ MEMO = True
 # Does the type closure return early on a type it has already inserted? (the code does since the C20 fix)
 EARLY = True
 
-CHECKS = {"C11": check_C11, "C03": check_C03, "C08": check_C08, "C20": check_C20, "C13": check_C13, "C09": check_C09, "C17": check_C17, "C18": check_C18, "C19": check_C19, "C06": check_C06, "C04": check_C04, "C14": check_C14, "C07": check_C07, "C12": check_C12, "C15": check_C15, "C16": check_C16}
+CHECKS = {"C11": check_C11, "C03": check_C03, "C08": check_C08, "C20": check_C20, "C13": check_C13, "C09": check_C09, "C17": check_C17, "C18": check_C18, "C19": check_C19, "C06": check_C06, "C04": check_C04, "C14": check_C14, "C07": check_C07, "C12": check_C12, "C15": check_C15, "C16": check_C16, "C05": check_C05, "C01": check_C01}
